@@ -24,4 +24,28 @@ C_Threads == {1, 2, 3}
 C_Menu    == (1 :> {"PutODSQ4", "RemoveODSQ4"}) @@ (2 :> {"CachedGet", "Get"}) @@ (3 :> {"CachedGet", "PutODS"})
 C_HMenu   == (1 :> {1, 2}) @@ (2 :> {1, 2}) @@ (3 :> {2})
 C_Ops     == (1 :> 2) @@ (2 :> 2) @@ (3 :> 1)
+
+\* --- quick variants (smaller programs)
+Aq_Menu   == (1 :> {"PutODSQ4", "RemoveODSQ4"}) @@ (2 :> {"PutODS", "RemoveQ4"}) @@ (3 :> {"Get", "Has"})
+Aq_HMenu  == (1 :> {1, 2}) @@ (2 :> {1}) @@ (3 :> {1})
+Aq_Ops    == (1 :> 2) @@ (2 :> 1) @@ (3 :> 2)
+Bq_Menu   == (1 :> {"PutODSQ4", "RemoveODSQ4"}) @@ (2 :> {"CachedGet"}) @@ (3 :> {"Get", "Has", "CachedGet"})
+Bq_HMenu  == (1 :> {1, 3}) @@ (2 :> {1, 3}) @@ (3 :> {3})
+Bq_Ops    == (1 :> 2) @@ (2 :> 2) @@ (3 :> 1)
+
+\* --- self-tests of the model's sensitivity (each must FAIL in the stated way)
+\* S1: the loader of CachedStore without the height lock -> stale entry of a removed empty block
+S1_Menu   == (1 :> {"PutODSQ4", "RemoveODSQ4"}) @@ (2 :> {"CachedGet"}) @@ (3 :> {"Has"})
+S1_HMenu  == (1 :> {3}) @@ (2 :> {3}) @@ (3 :> {3})
+S1_Ops    == (1 :> 2) @@ (2 :> 1) @@ (3 :> 1)
+\* S2: RemoveQ4 taking height-then-hash against a put taking hash-then-height -> dead-lock
+S2_Threads == {1, 2}
+S2_Menu   == (1 :> {"PutODSQ4"}) @@ (2 :> {"RemoveQ4"})
+S2_HMenu  == (1 :> {1}) @@ (2 :> {2})
+S2_Ops    == (1 :> 1) @@ (2 :> 1)
+\* S3: lazy Q4 open without the size validation -> a held accessor binds to a half-written Q4
+S3_Threads == {1, 2}
+S3_Menu   == (1 :> {"PutODSQ4", "RemoveODSQ4"}) @@ (2 :> {"Get"})
+S3_HMenu  == (1 :> {1}) @@ (2 :> {1})
+S3_Ops    == (1 :> 3) @@ (2 :> 1)
 =============================================================================
